@@ -1,3 +1,4 @@
+import FlowRecordProofs.Lemmas.KwCtor
 import FlowRecordProofs.Lemmas.Sqlite
 import FlowRecordProofs.Lemmas.SqliteSessions
 /-!
@@ -362,3 +363,13 @@ example : ∀ ops ∈ sess, Op.close ∉ ops := by decide
 example : ((runSessions E (noWriter 2) sess).committed.map (fun t => (t.name, colNames t, t.rows.length))) =
     [([116, 47, 97], [[115], [110], [98]], 3), ([116, 47, 98], [[116, 115]], 1)] := by decide
 end C18_nonvacuous
+
+
+/-- READERS BUILD RECORDS BY KEYWORD: for record types with a field named like a Python keyword the generated
+    constructor assigns `kwargs.get(k, v)` - a value handed over by keyword is the slot's value also when it is falsy
+    (0, "", False, an empty list), and `_unpack` tests `is not None`. The template text is regenerated from the source
+    and must equal the frozen text this meaning belongs to. -/
+theorem C18_keyword_constructor_keeps_values {V : Type} (x pos : V) :
+    (FlowRecord.Gen.tplKwInit = FlowRecord.KwCtor.frozenInit ∧ FlowRecord.Gen.tplKwUnpack = FlowRecord.KwCtor.frozenUnpack) ∧
+    FlowRecord.KwCtor.slotValue (some x) pos = x ∧ FlowRecord.KwCtor.slotValue (none : Option V) pos = pos :=
+  ⟨FlowRecord.KwCtor.template_is_frozen, rfl, rfl⟩
